@@ -6,6 +6,7 @@ import gen_safe as G
 import gen_image
 
 ID = "C17"
+QUICK_K = 1          # the stream sizes below are the real ones (the quick tier already takes minutes)
 LEAN_MODULES = ["NakenVerif.Props.C17"]
 THEOREMS = ["NakenVerif.C17." + t for t in (
     "read_uf2_total", "uf2_block_layout", "read_uf2_unchecked_counterexample", "read_elf_total", "read_macho_total",
@@ -53,6 +54,11 @@ TRUSTED_BASE = ["tools/gen_safe.py (builders of well-formed files of the nine fo
 FMT_TIMEOUT = 20
 
 
+def sz(ctx, q, t):
+    """stream size: exactly q in the quick tier, t in the thorough tier (no tier multiplier)"""
+    return q if ctx.quick() else t
+
+
 # ---------------------------------------------------------------------------
 # inputs
 # ---------------------------------------------------------------------------
@@ -70,8 +76,8 @@ def file_cases(ctx):
         return ctx.notes["files"]
     rng = ctx.rng
     cases = []
-    nseed = ctx.scale(2, 8)
-    limit = ctx.scale(110, 400)
+    nseed = sz(ctx, 2, 8)
+    limit = sz(ctx, 110, 400)
     for fmt in G.FMTS:
         for i in range(nseed):
             seed = G.BUILDERS[fmt](rng)
@@ -118,11 +124,11 @@ def correspondence(ctx, corr):
         lines.append(srd_line(ctx, "auto", ext, data))
         tags.append(("sniff", ext, True))
     # the same mutated files through the sniffer (extension of their format)
-    for fmt, ext, data, label in cases[::ctx.scale(9, 3)]:
+    for fmt, ext, data, label in cases[::sz(ctx, 9, 3)]:
         lines.append(srd_line(ctx, "auto", ext, data))
         tags.append(("sniff", ext, "window:" not in label))
-    cl = G.cmd_lines(rng, ctx.scale(2500, 20000))
-    wl = G.walk_lines(rng, ctx.scale(300, 2000))
+    cl = G.cmd_lines(rng, sz(ctx, 2500, 20000))
+    wl = G.walk_lines(rng, sz(ctx, 300, 2000))
     for l in cl + wl:
         lines.append(l)
         tags.append(("cmd", l.split(" ")[0], True))
@@ -213,7 +219,7 @@ def command_script(rng, n_ops):
         for o in ops:
             if c in ("print", "print16", "print32", "disasm", "dumpram", "dump_ram") and re.fullmatch(r"(-|--|0-|-5|main)", o):
                 continue            # a range from the start / to the end of a (here empty) image is fine but long: covered in-process
-            if c == "disasm" and re.search(r"0xffffff|f{20}", o):
+            if c == "disasm" and re.search(r"0xffffff|f{20}|9{20}", o):
                 continue            # a range that reaches the top of the address space: known finding, probed on its own below
             lines.append((c + " " + o).rstrip())
     lines += ["", " ", "\t", "unknown", "print8 1", "quit now", "exit 1", "asm", "nop", "", "asm 0x100", "", "asm zz", "bogus instruction here", ""]
@@ -258,7 +264,7 @@ def oracle(ctx, orc, focus=None):
 
     # 1. in-process: every answer of the real readers / command functions; a dead harness is a crash or a hang
     if "corr_impl" not in ctx.notes:
-        lines = [srd_line(ctx, f, e, d, 0x100 if f == "bin" else 0) for f, e, d, _ in cases] + G.cmd_lines(rng, ctx.scale(1500, 8000))
+        lines = [srd_line(ctx, f, e, d, 0x100 if f == "bin" else 0) for f, e, d, _ in cases] + G.cmd_lines(rng, sz(ctx, 1500, 8000))
         ctx.notes["corr_lines"], ctx.notes["corr_impl"] = lines, nvlib.run_lines(ctx.harness, lines, timeout=300)
     seen = set()
     for l, a in zip(ctx.notes["corr_lines"], ctx.notes["corr_impl"]):
@@ -286,7 +292,7 @@ def oracle(ctx, orc, focus=None):
             stats["names-ok"] += 1
 
     # 3. process level: mutated files
-    per_fmt = ctx.scale(14, 60)
+    per_fmt = sz(ctx, 14, 60)
     chosen = []
     by = collections.defaultdict(list)
     for c in cases:
@@ -295,7 +301,7 @@ def oracle(ctx, orc, focus=None):
         pool = by[fmt]
         spec = [c for c in pool if c[3].startswith("special/")]
         rest = [c for c in pool if not c[3].startswith("special/")]
-        chosen += spec[:ctx.scale(25, 400)] + rng.sample(rest, min(per_fmt, len(rest)))
+        chosen += spec[:sz(ctx, 25, 400)] + rng.sample(rest, min(per_fmt, len(rest)))
     jobs, meta = [], {}
     for i, (fmt, ext, data, label) in enumerate(chosen):
         path = os.path.join(tmp, "f%d.%s" % (i, ext))
@@ -341,8 +347,8 @@ def oracle(ctx, orc, focus=None):
     stats["cpus"] = len(cpus)
     jobs, scripts = [], {}
     for cpu in cpus:
-        for k in range(ctx.scale(1, 4)):
-            sc = command_script(rng, ctx.scale(5, 12))
+        for k in range(sz(ctx, 1, 4)):
+            sc = command_script(rng, sz(ctx, 5, 12))
             eof_only = (k == 0 and rng.random() < 0.3)
             text = "\n".join(sc) + ("\n" if eof_only else "\nquit\n")
             scripts[(cpu, k)] = sc
@@ -376,8 +382,10 @@ def oracle(ctx, orc, focus=None):
                  ["-bin", "-address", "0xffffff00", binfile, "-disasm", "-msp430"], ["-bin", "-address", "0xfffffff0", binfile, "-msp430", "-disasm"]]
     for v in vals:
         opt_lines += [["-bin", "-address", v, binfile], ["-set_pc", v, hexfile], ["-break_io", v, hexfile, "-run"],
-                      [hexfile, "-disasm_range", v], ["-address", v], ["-bin", binfile, "-address", v, "-disasm"]]
-    for cpu in rng.sample(cpus, ctx.scale(10, len(cpus))):
+                      ["-address", v], ["-bin", binfile, "-address", v, "-disasm"]]
+        if v not in ("0xffffffff", "-0x80000000"):      # the top of the address space: known finding; 0..2^31: a 2 GB listing
+            opt_lines.append([hexfile, "-disasm_range", v])
+    for cpu in rng.sample(cpus, sz(ctx, 10, len(cpus))):
         opt_lines.append(["-" + cpu, "-bin", binfile, "-disasm"])
         opt_lines.append(["-" + cpu.upper(), binfile])
     jobs = [(i, util, a, "info\nquit\n", 30, tmp) for i, a in enumerate(opt_lines)]
@@ -396,12 +404,18 @@ def oracle(ctx, orc, focus=None):
     probe = [("6502", "disasm 0xfffffff8-0xffffffff")] if ctx.quick() else [("6502", "disasm 0xfffffff8-0xffffffff"), ("avr8", "disasm 0x7ffffff8-0x7fffffff"),
                                                                           ("68000", "disasm 0xfffffff0-0xffffffff")]
     for cpu, cmd in probe:
-        r = nvlib.run_util(util, ["-" + cpu], cmd + "\nquit\n", timeout=8, cwd=tmp)
+        # the output of a walk that never ends is unbounded: it goes to /dev/null, only status and time are looked at
+        try:
+            pr = subprocess.run([util, "-" + cpu], input=(cmd + "\nquit\n").encode(), stdout=subprocess.DEVNULL, stderr=subprocess.PIPE,
+                                env=nvlib.SAN_ENV, timeout=6, cwd=tmp)
+            r = {"rc": pr.returncode, "out": "", "err": pr.stderr.decode("latin-1")}
+        except subprocess.TimeoutExpired:
+            r = {"rc": -999, "out": "", "err": "timeout"}
         orc["cases"] += 1
         c = classify(r)
         if c:
             fail(orc, "C17:hang:disasm-range-top:%s:%s" % (cpu, c), "naken_util -%s < %s" % (cpu, cmd), "the range is disassembled and the prompt returns",
-                 "%s (output %d bytes)" % (c, len(r["out"])), "disasm of a range ending at the top of the address space never ends")
+                 c, "disasm of a range ending at the top of the address space never ends")
         else:
             stats["range-top-ended"] += 1
 
